@@ -295,11 +295,31 @@ def _element_symbols():
     return _SYMS
 
 
+def uncounted_lines(fmt, lines):
+    """indices of the lines that belong to record blocks WITHOUT a declared count (mol2 UNITY_ATOM_ATTR / UNITY_BOND_ATTR ...): removing
+    one complete record (its head line and its attribute lines) from such a block leaves a well-formed file of another molecule, which no
+    reader can tell from an undamaged one (like line swaps: outside the fault model); a single deleted line is always detectable"""
+    out = set()
+    if fmt != "mol2":
+        return out
+    block = None
+    for i, ln in enumerate(lines):
+        s_ = ln.strip()
+        if s_.startswith("@<TRIPOS>"):
+            block = s_[9:]
+        elif block is not None and block.startswith("UNITY_"):
+            out.add(i)
+    return out
+
+
 def apply_fault(fmt, text, fault):
     lines = text.splitlines()
     kind = fault[0]
     if kind == "del":
-        for k in sorted({f % len(lines) for f in fault[1]}, reverse=True):
+        ks = sorted({f % len(lines) for f in fault[1]}, reverse=True)
+        if len(ks) > 1 and len(set(ks) & uncounted_lines(fmt, lines)) > 1:
+            return None      # could remove a complete record of an uncounted block: undetectable by construction
+        for k in ks:
             del lines[k]
     elif kind == "dup":
         for k in sorted({f % len(lines) for f in fault[1]}, reverse=True):
